@@ -48,7 +48,8 @@ RULE = (
     'as_str/as_json/as_repr conversions consumed by later jobs. Phase tokens: the job-token generator is restricted '
     'to a tiny seeded space (birthday collisions of 5-character tokens in large batches). Phase digits: a reference '
     'is immediately followed by a digit. Non-trivial: at least one file crosses jobs; distinct by the shape of the '
-    'program (op kinds, reference forms, extension timing) without the random names.'
+    'program (op kinds, reference forms, extension timing) without the random names. quick 1200+100+100 programs, '
+    'thorough 16 shards x (5000+300+300).'
 )
 ASSUMPTIONS = [
     'the recording fake client receives exactly what hailtop.batch_client.aioclient.Batch.create_job would receive',
